@@ -285,7 +285,7 @@ class ProblemCall(Unit):
         pb._callback = [None, cb_kw, cb_pos][cbmode]
         penalty = SF.fresh("penalty")
         from cobyqa.utils import CallbackSuccess
-        kind, res = call_expecting(c, "C08.problem_call", lambda: pb(x_in, penalty), (CallbackSuccess,), props=["C08"])
+        kind, res = call_expecting(c, "C08.problem_call", lambda: pb(x_in, penalty), (CallbackSuccess,))
         F, M, X = pb._fun_filter, pb._maxcv_filter, pb._x_filter
         # ---- evaluation counter (C05.O1): exactly one more, whatever the objective is (also fun=None) ----------------
         n_after = type(pb).n_eval.fget(pb)
@@ -360,7 +360,7 @@ class ProblemCall(Unit):
             r0 = raw_at(g, nm, i, raw)
             c.oblige(f"C08.problem_call.post.{nm}_barrier",
                      z3.Implies(z3.And(0 <= i, i < v.n), z3.And(z3.Not(e.nan), e.r <= Bv, e.r >= -Bv)), props=["C08", "C12"])
-            c.oblige(f"C08.problem_call.post.{nm}_length", v.n == raw.n, props=["C08"])
+            c.oblige(f"C08.problem_call.post.{nm}_length", v.n == raw.n)
 
 
 def raw_at(g, nm, i, raw):
